@@ -165,6 +165,12 @@ def run_case(case, ctx):
         if gname in HEAVY_GENERATORS and not case.get("heavy", True):
             ctx.count("heavy_generator_skipped:" + gname)
             continue
+        if gname == "real_pictures" and 32 * int(vp["pixel_aspect_ratio_denom"]) < int(vp["pixel_aspect_ratio_numer"]):
+            # harness domain: the natural pictures are replaced by the repository's 32-48 pixel wide test images
+            # (setup); an aspect ratio beyond 32:1 squeezes those to zero width, which the real 1920 pixel wide
+            # pictures never are.  Not judged.
+            ctx.count("real_pictures_skipped_tiny_image_extreme_aspect_ratio")
+            continue
         try:
             tcs = list(gen())
         except Exception as e:
